@@ -1,6 +1,8 @@
 (* C09 — Context keeps base and extra contexts as isolated, faithful contextoid stores. *)
 From Coq Require Import List Arith NArith ZArith Bool.
 From DC Require Import Common.AList Graph.UltraGraph Graph.Spec Graph.Refine Context.Model Context.Spec Context.Proofs.
+From DC Require Graph.BulkAdd Context.Bulk.
+Import ListNotations.
 Import ListNotations.
 
 (* isolation, on the model of the code *)
@@ -65,6 +67,29 @@ Theorem C09_spec_isolation : forall s o r s',
   (is_extra_op o = true -> sbase s' = sbase s /\ forall j, j <> scurrent s -> nget j (sextras s') = nget j (sextras s)).
 Proof. exact spec_isolation. Qed.
 
+(* bulk insertion through the Context API for ANY number of contextoids (oracle of the large histories of the check): into the
+   base context ... *)
+Theorem C09_bulk_insertion_base : forall vs,
+  let '(rs, c) := Bulk.cadd_many new_ctx vs in
+  rs = map Z.of_nat (seq 0 (length vs)) /\
+  (forall i, i < length vs -> contains_node (base c) i = true /\ get_node (base c) i = Some (nth i vs 0%Z)) /\
+  (forall i, length vs <= i -> contains_node (base c) i = false) /\
+  size (base c) = length vs /\ extras c = [] /\ current c = 0.
+Proof. exact Bulk.ctx_bulk_base. Qed.
+
+(* ... and into a freshly created extra context, the base context staying empty *)
+Theorem C09_bulk_insertion_extra : forall vs,
+  let '(_, c0) := cstep new_ctx (XAddNew true) in
+  let '(rs, c) := Bulk.xadd_many c0 vs in
+  rs = map Z.of_nat (seq 0 (length vs)) /\
+  (exists g, current_extra c = Some g /\
+     (forall i, i < length vs -> contains_node g i = true /\ get_node g i = Some (nth i vs 0%Z)) /\
+     (forall i, length vs <= i -> contains_node g i = false) /\ size g = length vs) /\
+  base c = empty_graph.
+Proof. exact Bulk.ctx_bulk_extra. Qed.
+
+Print Assumptions C09_bulk_insertion_base.
+Print Assumptions C09_bulk_insertion_extra.
 Print Assumptions C09_base_ops_touch_only_base.
 Print Assumptions C09_extra_ops_touch_only_selected.
 Print Assumptions C09_nothing_selected_fails_cleanly.
